@@ -118,7 +118,7 @@ pub fn check_quantity<const N: usize>(pat: &[u8], rng: &mut Rng, product: bool) 
                 t = t.max(vals[i].0);
             }
             let pv: Vec<f32> = p.iter().map(|&i| vals[i].1.value).collect();
-            if v.unit == d.value.unit && d.time.0 == t && (same(v.value, d.value.value) || any_association(&pv, d.value.value, product)) { Ok(()) } else { Err(format!("pattern {:?} values {:?}: got {:?} expected ({}, {:?})", pat, vals, d, t, v)) }
+            if v.unit.eq_assume_true(&d.value.unit) && d.time.0 == t && (same(v.value, d.value.value) || any_association(&pv, d.value.value, product)) { Ok(()) } else { Err(format!("pattern {:?} values {:?}: got {:?} expected ({}, {:?})", pat, vals, d, t, v)) }
         }
         (m, g) => Err(format!("pattern {:?}: got {:?} expected {:?}", pat, g, m)),
     }
